@@ -219,6 +219,27 @@ class Interp:
             self.loop(st)
         elif k == 'throw':
             raise Thrown()
+        elif k == 'switch':
+            from facts import switch_arms
+            v = self.val(st['cond'])
+            arms = switch_arms(st)
+            start = None
+            for i, a in enumerate(arms):
+                if any(lab is not None and self.val(lab) == v for lab in a['labels']):
+                    start = i
+                    break
+            if start is None:
+                for i, a in enumerate(arms):
+                    if None in a['labels']:
+                        start = i
+                        break
+            if start is not None:
+                try:
+                    for a in arms[start:]:          # fall-through until a break
+                        for x in a['stmts']:
+                            self.block(x)
+                except Break:
+                    pass
         elif k == 'goto':
             raise Goto(st.get('l'))
         elif k == 'label':
@@ -311,6 +332,8 @@ class Interp:
             raise Unmodelled('unknown name %s at line %s' % (n, e.get('ln')))
         if k == 'mem' and see_through(e['b']).get('k') == 'this' and ('mem:' + e['n']) in self.oracle:
             return self.oracle['mem:' + e['n']](self, [self.env.get('this', ('this',))], e)
+        if k == 'mem' and see_through(e['b']).get('k') == 'this' and ('this.' + e['n']) in self.env:
+            return self.env['this.' + e['n']]
         if k == 'mem' and see_through(e['b']).get('k') == 'this':
             if e['n'] in ('term_TRUE', 'term_FALSE'):
                 return T if e['n'] == 'term_TRUE' else F
@@ -363,6 +386,15 @@ class Interp:
                 self.val(e['l'])
                 return self.val(e['r'])
             if op == '=':
+                tl = see_through(e['l'])
+                if isinstance(tl, dict) and tl.get('k') == 'call' and tl.get('op') == '[]':
+                    base = self.val(tl['recv'])
+                    i = self.val(tl['a'][0])
+                    r = self.val(e['r'])
+                    if isinstance(base, (list, dict)):
+                        base[i] = r
+                        return r
+                    raise Unmodelled('element assignment at line %s' % e.get('ln'))
                 n = path_of(e['l'])
                 r = self.val(e['r'])
                 if n in self.env or (n or '').startswith('this.'):
@@ -404,6 +436,8 @@ class Interp:
             ans = self.oracle['op:' + op](self, ([self.val(e['recv'])] if e.get('recv') is not None else []) + [self.val(x) for x in args], e)
             if ans is not NotImplemented:
                 return ans
+        if not op and m in self.oracle:
+            return self.oracle[m](self, [self.val(x) for x in args], e)
         if op == '[]':
             base = self.val(e['recv'])
             i = self.val(args[0])
@@ -413,6 +447,8 @@ class Interp:
                 return base[i + 1]
             if base == ('symmap',):
                 return ('sym', self.default_op)
+            if isinstance(base, dict) and i in base:
+                return base[i]
             raise Unmodelled('index at line %s' % e.get('ln'))
         if op in ('==', '!='):
             l = self.val(e['recv']) if e.get('recv') is not None else self.val(args[0])
@@ -428,7 +464,7 @@ class Interp:
             if isinstance(t, dict) and t.get('k') == 'call' and t.get('op') == '[]':
                 base = self.val(t['recv'])
                 i = self.val(t['a'][0])
-                if isinstance(base, list):
+                if isinstance(base, (list, dict)):
                     base[i] = v
                     return v
             raise Unmodelled('assignment target at line %s' % e.get('ln'))
